@@ -232,6 +232,7 @@ class Canon(object):
 
     def _canon_function(self, fn, cls, m, outer_first=None):
         self.outer_first = outer_first
+        self._match_to_if(fn)
         self._subst_consts(fn, cls, m)
         self._hoist_ifexp(fn)
         for _ in range(5):
@@ -698,6 +699,83 @@ class Canon(object):
         return [ast.For(target=ast.Name(id='%s%d' % (ONCE, self.counter), ctx=ast.Store()),
                         iter=ast.Tuple(elts=[ast.Constant(value=0)], ctx=ast.Load()), body=new + [ast.Break(lineno=line)] if not _always_leaves(new) else new,
                         orelse=[], lineno=line)]
+
+    # ---------------------------------------------------------------- match on values  ->  if / elif chain
+    def _match_to_if(self, fn):
+        """match s: case V: A; case W | X: B; case _: C   ->   if s == V: A elif s == W or s == X: B else: C
+        (value / singleton / or-patterns and the wildcard only; anything that binds names is left alone)."""
+        if not hasattr(ast, 'Match'):
+            return
+        canon = self
+
+        def test_of(pat, subj):
+            if isinstance(pat, ast.MatchValue):
+                return ast.Compare(left=copy.deepcopy(subj), ops=[ast.Eq()], comparators=[pat.value])
+            if isinstance(pat, ast.MatchSingleton):
+                return ast.Compare(left=copy.deepcopy(subj), ops=[ast.Is()], comparators=[ast.Constant(value=pat.value)])
+            if isinstance(pat, ast.MatchOr):
+                parts = [test_of(p, subj) for p in pat.patterns]
+                return None if any(p is None for p in parts) else ast.BoolOp(op=ast.Or(), values=parts)
+            return None
+
+        def convert(node):
+            subj = node.subject
+            pre = []
+            if not is_simple(subj):
+                name = canon._fresh('subject')
+                pre.append(ast.Assign(targets=[ast.Name(id=name, ctx=ast.Store())], value=subj, lineno=node.lineno))
+                subj = ast.Name(id=name, ctx=ast.Load())
+            arms = []
+            for i, c in enumerate(node.cases):
+                wild = isinstance(c.pattern, ast.MatchAs) and c.pattern.pattern is None and c.pattern.name is None
+                if wild and c.guard is None:
+                    if i != len(node.cases) - 1:
+                        return None
+                    arms.append((None, c.body))
+                    continue
+                t = ast.Constant(value=True) if wild else test_of(c.pattern, subj)
+                if t is None:
+                    return None
+                if c.guard is not None:
+                    t = c.guard if wild else ast.BoolOp(op=ast.And(), values=[t, c.guard])
+                arms.append((t, c.body))
+            chain = []
+            for t, body in reversed(arms):
+                body = rec(body)
+                if t is None:
+                    chain = body
+                else:
+                    chain = [ast.If(test=t, body=body, orelse=chain, lineno=node.lineno)]
+            for n in chain + pre:
+                ast.copy_location(n, node)
+                ast.fix_missing_locations(n)
+            canon.stats['spellings'] += 1
+            return pre + chain
+
+        def rec(stmts):
+            out = []
+            for s in stmts:
+                if isinstance(s, (ast.FunctionDef, ast.AsyncFunctionDef, ast.ClassDef)):
+                    out.append(s)
+                    continue
+                if isinstance(s, ast.Match):
+                    new = convert(s)
+                    if new is not None:
+                        out.extend(new or [ast.Pass(lineno=s.lineno)])
+                        continue
+                    for c in s.cases:
+                        c.body = rec(c.body)
+                    out.append(s)
+                    continue
+                for name in ('body', 'orelse', 'finalbody'):
+                    sub_ = getattr(s, name, None)
+                    if isinstance(sub_, list) and sub_ and isinstance(sub_[0], ast.stmt):
+                        setattr(s, name, rec(sub_))
+                for h in getattr(s, 'handlers', []) or []:
+                    h.body = rec(h.body)
+                out.append(s)
+            return out
+        fn.body = rec(fn.body)
 
     # ---------------------------------------------------------------- v = a if c else b  ->  if statement
     def _hoist_ifexp(self, fn):
